@@ -5,19 +5,21 @@ From LMIo Require Import IoBase IoNom IoJaspar IoUniprobe IoPrint IoPrintU IoBas
   IoMatrixProofs IoRoundtripU IoLineProofsU IoC14Proofs.
 Import ListNotations.
 
-Lemma uniprobe_roundtrip_lemma : forall A parse_f32 prefix rs s,
-  wf_alphabet A -> wf_blank_prefix prefix = true -> forallb (wf_uniprobe A parse_f32) rs = true ->
-  wf_stream s -> stream_bytes s = print_file print_uniprobe prefix rs [] ->
+Lemma uniprobe_roundtrip_lemma : forall A parse_f32 prefix rs suffix s,
+  wf_alphabet A -> wf_blank_prefix prefix = true -> wf_suffix suffix = true ->
+  forallb (wf_uniprobe A parse_f32) rs = true ->
+  wf_stream s -> stream_bytes s = print_file print_uniprobe prefix rs suffix ->
   uniprobe_read A parse_f32 s
   = map (fun p => Ok (Some (record_of A F32.zero (fvalue parse_f32) (snd p)))) rs ++ [Ok None].
 Proof.
-  intros A parse_f32 prefix rs s HA Hpre Hwf Hs Eb.
-  apply (uniprobe_roundtrip_prefix A HA parse_f32
+  intros A parse_f32 prefix rs suffix s HA Hpre Hsuf Hwf Hs Eb.
+  apply (uniprobe_roundtrip_full A HA parse_f32
            (u_matrix_column_print A parse_f32) (u_id_print A) (name_not_column A parse_f32)
-           (empty_not_column A parse_f32) prefix rs s).
+           (empty_not_column A parse_f32) prefix rs suffix s).
   - exact Hpre.
+  - exact Hsuf.
   - apply forallb_Forall. exact Hwf.
   - exact Hs.
-  - unfold stream_bytes, print_file in Eb. rewrite Eb. rewrite app_nil_r. f_equal.
+  - unfold stream_bytes, print_file in Eb. rewrite Eb. f_equal. f_equal.
     unfold enc_recs. apply utf8_encode_concat_map.
 Qed.
